@@ -25,7 +25,9 @@ type reqLog struct {
 	// number of Write calls the writer had STARTED when the response was complete: every parameter set the muxer
 	// held up to then comes from a write with a smaller index
 	WritesEnd int
-	Seq       int
+	// number of Write calls that had COMPLETED when the request started
+	DoneAtStart int
+	Seq         int
 	Client int // attempt number
 	Path   string
 	Query  string
@@ -37,6 +39,7 @@ type reqLog struct {
 
 type stub struct {
 	writes *int64 // started Write calls (atomic)
+	done   *int64 // completed Write calls (atomic)
 	m      *gohlslib.Muxer
 	mu     sync.Mutex
 	log    []*reqLog
@@ -44,7 +47,8 @@ type stub struct {
 }
 
 func (s *stub) RoundTrip(req *http.Request) (*http.Response, error) {
-	e := &reqLog{Path: strings.TrimPrefix(req.URL.Path, "/"), Query: req.URL.RawQuery, Range: req.Header.Get("Range")}
+	e := &reqLog{Path: strings.TrimPrefix(req.URL.Path, "/"), Query: req.URL.RawQuery, Range: req.Header.Get("Range"),
+		DoneAtStart: int(atomic.LoadInt64(s.done))}
 	s.mu.Lock()
 	e.Seq = len(s.log)
 	e.Client = s.client
@@ -117,6 +121,7 @@ type pairResult struct {
 	EncErrors   []string
 	Written     [][]written // per muxer track, in writing order
 	MuxCodecs   []string    // codecparams.Marshal of every muxer track after Start
+	SegCloses   []int       // Low-Latency: the writes during which the leading stream rotated its segment (VerifSnapshot after every write)
 	ParamLine   [][]paramAt // per muxer track: the canonical parameters the muxer holds, from which write on
 	Clients     []*clientRun
 	Panic       string
@@ -369,8 +374,20 @@ func runPair(p *pairDesc) (res *pairResult) {
 	}
 	res.Written = make([][]written, len(h.Tracks))
 
-	var writesStarted int64
-	st := &stub{m: m, writes: &writesStarted}
+	var writesStarted, writesDone int64
+	st := &stub{m: m, writes: &writesStarted, done: &writesDone}
+	leadingNextSeg := func() uint64 {
+		for _, ss := range gohlslib.VerifSnapshot(m).Streams {
+			if ss.IsLeading {
+				return ss.NextSegmentID
+			}
+		}
+		return 0
+	}
+	lastNextSeg := uint64(0)
+	if h.Variant == 3 {
+		lastNextSeg = leadingNextSeg()
+	}
 	t0 := time.Now()
 	writerDone := make(chan struct{})
 	var wmu sync.Mutex
@@ -412,6 +429,13 @@ func runPair(p *pairDesc) (res *pairResult) {
 			case kOpus:
 				err = m.WriteOpus(tr, ntp, a.PTS, c.au)
 			}
+			if h.Variant == 3 {
+				if n := leadingNextSeg(); n != lastNextSeg {
+					lastNextSeg = n
+					res.SegCloses = append(res.SegCloses, k)
+				}
+			}
+			atomic.StoreInt64(&writesDone, int64(k)+1)
 			wmu.Lock()
 			if err != nil {
 				res.WriteErrors = append(res.WriteErrors, fmt.Sprintf("write %d: %v", k, err))
